@@ -84,6 +84,14 @@ func genCacheCase(t *rapid.T) CacheCase {
 		k := rapid.IntRange(0, n-1).Draw(t, "link_task")
 		c.Tasks[k].Files = append(c.Tasks[k].Files, "ln.txt")
 	}
+	// rarely: a dangling link among the files a glob matches (it cannot be hashed; only forced runs get past it)
+	if missingOK() && rapid.IntRange(0, 11).Draw(t, "with_dangling") == 11 {
+		if c.Links == nil {
+			c.Links = map[string]string{}
+		}
+		c.Links["extra.txt"] = "nowhere"
+		delete(c.Init, "extra.txt")
+	}
 	names := taskNames[:n]
 	nsteps := rapid.IntRange(2, 14).Draw(t, "nsteps")
 	if ev.Thorough() {
@@ -363,6 +371,15 @@ func templateCases() []CacheCase {
 			out = append(out, CacheCase{Tasks: shift, Init: map[string]string{pair[0]: pair[1], "b.txt": "0"}, Steps: []Step{
 				run([]string{"A", "B"}, false, nil), {Op: "delete", File: pair[0]}, {Op: "write", File: pair[2], Content: pair[3]}, fin, fin}})
 		}
+	}
+	// a dangling link among the glob matches: only a forced run gets past it; once it is removed the
+	// set of dependency paths has changed
+	dang := []TaskSpec{{Name: "A", Globs: []string{"*.txt"}, NCmds: 1}, {Name: "B", Files: []string{"b.txt"}, NCmds: 1}}
+	for _, fin := range final {
+		out = append(out, CacheCase{Tasks: dang, Init: map[string]string{"a.txt": "0", "b.txt": "0"}, Links: map[string]string{"zz.txt": "nowhere"}, Steps: []Step{
+			run([]string{"A", "B"}, true, nil), {Op: "delete", File: "zz.txt"}, fin, fin}})
+		out = append(out, CacheCase{Tasks: dang, Init: map[string]string{"a.txt": "0", "b.txt": "0"}, Steps: []Step{
+			run([]string{"A", "B"}, false, nil), {Op: "write", File: "a.txt", Content: "1"}, run([]string{"A"}, true, nil), {Op: "write", File: "a.txt", Content: "0"}, fin, fin}})
 	}
 	// a dependency that is a symbolic link: the target is edited, not the link
 	linked := []TaskSpec{{Name: "A", Files: []string{"ln.txt"}, NCmds: 1}, {Name: "B", Globs: []string{"l*.txt"}, NCmds: 1}}
